@@ -4,6 +4,8 @@ import (
 	"bytes"
 	"fmt"
 	"net"
+	"sync"
+	"sync/atomic"
 
 	"github.com/pion/stun/v3"
 	"github.com/pion/stun/v3/verifharness/core"
@@ -155,6 +157,14 @@ func c06Addr(c *core.Ctx, r *gen.Rand, k addrKind, port int, fam int) {
 		if r.Bool() {
 			m.Add(stun.AttrSoftware, r.Bytes(r.Intn(9)))
 		}
+		if r.Chance(1, 5) {
+			// the message the attribute is added to was received: decoded in place from a buffer that holds more bytes
+			// than the message. What is sent afterwards is the message, nothing else.
+			m = &stun.Message{Raw: append(append([]byte(nil), m.Raw...), r.Bytes(1+r.Intn(40))...)}
+			if err := m.Decode(); err != nil {
+				fatalHarness("C06 re-decode: " + err.Error())
+			}
+		}
 	}
 	ipCopy := append(net.IP(nil), ip...)
 	if err := k.set(m, ip, port, typ); err != nil {
@@ -177,6 +187,11 @@ func c06Addr(c *core.Ctx, r *gen.Rand, k addrKind, port int, fam int) {
 	rm, why := ref.Parse(m.Raw)
 	if rm == nil {
 		c.Violate("unparseable", "unparseable", detail(why))
+
+		return
+	}
+	if len(m.Raw) != 20+rm.Length {
+		c.Violate("wire-format", "wire-format:bytes-behind-the-message:"+k.name, detail(fmt.Sprintf("after the setter Raw has %d bytes, the message it holds has %d", len(m.Raw), 20+rm.Length)))
 
 		return
 	}
@@ -307,6 +322,54 @@ func c06(c *core.Ctx) {
 			c06Addr(c, r, k, r.Intn(65536), r.Intn(4))
 		}
 		c.Distinct(r.U64())
+	})
+	// (1c) XOR addresses encoded and decoded by several goroutines at once, each on its own messages and transaction ids
+	c.Section("concurrent-xor-addresses", c.N(30, 3000), func(i int64, _ *gen.Rand) {
+		const g = 8
+		var wg sync.WaitGroup
+		var bad atomic.Value
+		for w := 0; w < g; w++ {
+			wg.Add(1)
+			rk := gen.Derive(c.Seed, uint64(i), uint64(w), 0xC06C)
+			go func() {
+				defer wg.Done()
+				for n := 0; n < 200; n++ {
+					tid := rk.TID()
+					ip := net.IP(rk.Bytes(4 + 12*(n%2)))
+					if len(ip) == 16 && ip[10] == 0xff && ip[11] == 0xff {
+						ip[0] |= 1
+					}
+					port := rk.Intn(65536)
+					m := new(stun.Message)
+					_ = m.Build(stun.BindingSuccess, stun.NewTransactionIDSetter(tid))
+					if err := (&stun.XORMappedAddress{IP: ip, Port: port}).AddTo(m); err != nil {
+						bad.Store(err.Error())
+
+						return
+					}
+					want := ref.EncXORAddr(ip, port, tid)
+					if got := m.Raw[24:]; !bytes.Equal(got, want) {
+						bad.Store(fmt.Sprintf("XOR-MAPPED-ADDRESS of %v:%d under id %x encoded as %x, RFC 5389 says %x", ip, port, tid, got, want))
+
+						return
+					}
+					dec := new(stun.Message)
+					var back stun.XORMappedAddress
+					if err := stun.Decode(m.Raw, dec); err != nil || back.GetFrom(dec) != nil || !back.IP.Equal(ip) || back.Port != port {
+						bad.Store(fmt.Sprintf("XOR-MAPPED-ADDRESS of %v:%d under id %x read back as %v:%d", ip, port, tid, back.IP, back.Port))
+
+						return
+					}
+				}
+			}()
+		}
+		wg.Wait()
+		c.Eval(g * 200)
+		c.Count("concurrent_xor_round_trips", g*200)
+		if v, _ := bad.Load().(string); v != "" {
+			c.Violate("concurrent-mismatch", "concurrent-mismatch:XOR-MAPPED-ADDRESS", map[string]interface{}{"goroutines": g, "problem": v})
+		}
+		c.Distinct(uint64(i) | 7<<50)
 	})
 	// (2) text attributes: every length up to the limit, and limit+1
 	for _, tk := range textKinds() {
